@@ -56,7 +56,7 @@ def bank_cases(ctx):
   rng = ctx.rng
   for _ in ctx.loop(1200, 50000):
     yield ("bankmut", rng.choice(["C", "P"]),
-           [rpart(rng) for _ in range(rng.randint(1, 3))],
+           [rpart(rng) for _ in range(rng.randint(0, 3))],
            rng.choice(["setitem", "append", "insert", "delitem", "iadd",
                        "setitem", "pop", "extend"]),
            rng.randint(0, 5), [rpart(rng) for _ in range(2)],
@@ -86,6 +86,9 @@ def run_bank(ctx, case):
   cls = CascadeFilter if tag == "C" else ParallelFilter
   bank = cls(*[ZFilter(list(b), list(a)) for b, a in parts])
   pre = "cascade" if tag == "C" else "parallel"
+  if not parts and first_use == "polys":
+    first_use = "freq_response"         # (polynomials of an empty bank: not
+                                        # part of the statement)
   for w in ws[:1]:                      # first use, before the change
     ref = bank_ref(tag, parts, w)
     if first_use == "freq_response":
@@ -103,6 +106,8 @@ def run_bank(ctx, case):
   cur = list(parts)
   mk = lambda p: ZFilter(list(p[0]), list(p[1]))
   if how == "setitem":
+    if not cur:
+      return False
     k = idx % len(cur)
     bank[k] = mk(new[0])
     cur[k] = new[0]
@@ -114,7 +119,7 @@ def run_bank(ctx, case):
     bank.insert(k, mk(new[0]))
     cur.insert(k, new[0])
   elif how == "delitem":
-    if len(cur) < 2:
+    if not cur:
       return False
     k = idx % len(cur)
     del bank[k]
@@ -123,7 +128,7 @@ def run_bank(ctx, case):
     bank += [mk(new[0])]
     cur.append(new[0])
   elif how == "pop":
-    if len(cur) < 2:
+    if not cur:
       return False
     bank.pop()
     cur.pop()
@@ -141,6 +146,8 @@ def run_bank(ctx, case):
       continue
     got = bank.freq_response(w)
     ctx.count("bank-response-after-in-place-change")
+    if not cur:
+      ctx.count("empty-bank-response")      # empty product 1, empty sum 0
     ctx.count("bankmut:" + how)
     done = True
     if not close(ctx, "bank:after", got, ref[0], ref[1]):
@@ -246,6 +253,7 @@ def finish(ctx):
   ctx.need("complex-fir-checked", 300)
   ctx.need("complex-unit-modulus-tap", 100)
   ctx.need("bank-response-after-in-place-change", 500)
+  ctx.need("empty-bank-response", 20)
   for how in ["setitem", "append", "insert", "delitem", "iadd", "pop",
               "extend"]:
     ctx.need("bankmut:" + how, 30)
